@@ -29,8 +29,8 @@ HARD_CALLEES = [
     ("result::Result::expect", "expect"),
     ("result::Result::unwrap_err", "unwrap"),
     ("result::Result::expect_err", "expect"),
-    ("ops::Index::index", "index"),
-    ("ops::IndexMut::index_mut", "index"),
+    ("Index::index", "index"),
+    ("IndexMut::index_mut", "index"),
     ("slice::copy_from_slice", "copy_from_slice"),
     ("slice::clone_from_slice", "clone_from_slice"),
     ("slice::split_at", "split_at"),
@@ -56,7 +56,7 @@ HARD_CALLEES = [
     ("string::String::replace_range", "string_replace_range"),
     ("cell::RefCell::borrow", "refcell"),
     ("cell::RefCell::borrow_mut", "refcell"),
-    ("iter::Iterator::step_by", "step_by"),
+    ("Iterator::step_by", "step_by"),
     ("panicking::panic", "panic"),
     ("panicking::panic_fmt", "panic"),
     ("panicking::panic_explicit", "panic"),
